@@ -155,6 +155,15 @@ def compare_final(ctx, spec, env, label, witness):
         if ni == ns:
             mech = OPT_MEMORY_MECH
             ctx["opt_memory_files"] = {h[5:] for h in removed_i if h.startswith("file:")}
+        elif only_optional_products_differ(gi, gs):
+            # A step that an optional step defined in an earlier run is still attached, consumes
+            # the optional step's output and thereby keeps it needed: a stable state that a
+            # from-scratch build (where the optional step never runs) does not have.
+            mech = OPT_MEMORY_MECH
+            suspect = only_optional_products_differ(gi, gs)
+            ctx["opt_memory_files"] = {
+                h[5:] for h, node in gi.items() if h.startswith("file:")
+                and {r[1] for r in node["rels"] if r[0] in ("source", "creator")} & suspect}
         elif ctx.get("stale_need_seen") and only_optional_differs(gi, gs):
             mech = STALE_NEED_MECH
             ctx["stale_need_graph"] = True
@@ -210,6 +219,56 @@ def only_optional_differs(gi, gs):
         if not all(r[1] in opt_steps or r[1] in heads for r in diff):
             return False
     return bool(opt_steps)
+
+
+def only_optional_products_differ(gi, gs):
+    """Every difference is confined to declared-OPTIONAL steps, to steps that exist only in the
+    incremental graph below a declared-OPTIONAL step, and to the files these steps produce."""
+    def declared_optional(node):
+        for k, v in node["props"]:
+            if k == "need":
+                return v.startswith("OPTIONAL") or v.endswith("> OPTIONAL)")
+        return set()
+
+    def creator(g, head):
+        for role, key, _d in g[head]["rels"]:
+            if role == "creator":
+                return key
+        return None
+
+    diff = {h for h in set(gi) | set(gs) if gi.get(h) != gs.get(h)}
+    suspect = set()
+    for h in diff:
+        if not h.startswith("step:"):
+            continue
+        node = gi.get(h) or gs.get(h)
+        if declared_optional(node):
+            suspect.add(h)
+            continue
+        if h in gs:
+            return set()
+        cur, ok = creator(gi, h), False
+        while cur in gi and cur.startswith("step:"):
+            if declared_optional(gi[cur]):
+                ok = True
+                break
+            cur = creator(gi, cur)
+        if not ok:
+            return set()
+        suspect.add(h)
+    if not suspect:
+        return set()
+    for h in diff - suspect:
+        a, b = gi.get(h), gs.get(h)
+        node = a or b
+        produced_by = {r[1] for r in node["rels"] if r[0] in ("source", "creator")}
+        if produced_by & suspect:
+            continue
+        if a is None or b is None or a["props"] != b["props"]:
+            return set()
+        if not all(r[1] in suspect or r[1] in diff for r in set(a["rels"]) ^ set(b["rels"])):
+            return set()
+    return suspect
 
 
 def classify_graph_diff(only_i, only_s):
